@@ -21,11 +21,11 @@ NONEXIST = '$.__non_existent_json_attr_name__'
 IDENT_KEYS = ['a', 'b', 'k1', '_x', 'Key', 'aé', 'z']
 QUOTED_KEYS = ['a b', 'a.b', 'a[0]', "a'b", '', '1a', '$', 'ü ü', 'é', 'a-b', '[', ']', '.', '-1', '0', ' ', '%s', '?', '$1', ':p']
 QUOTE_KEYS = ['q"k', '"', 'a"', '"a']            # a double quote: not expressible in the path text (both back ends)
-ESC_KEYS = ['a\\b', 'a\nb', 'x\ty', '\\']          # written escaped by json.dumps: JSON1 (3.40) never matches them
+ESC_KEYS = ['a\\b', 'a\nb', 'x\ty', '\\', 'u\x1ev']          # written escaped by json.dumps: JSON1 (3.40) never matches them
 ALL_KEYS = IDENT_KEYS + QUOTED_KEYS + QUOTE_KEYS + ESC_KEYS
 INT_POOL = [0, 1, -1, 2, 5, 7, -3, 10 ** 12, 2 ** 62]
 FLOAT_POOL = [0.0, -0.0, 1.5, -2.25, 0.1 + 0.2, 1e100, 5e-324]
-STR_POOL = ['', 'abc', '5', 'a"b', 'é', 'b', 'a\\nb', 'x y', "it's"]
+STR_POOL = ['', 'abc', '5', 'a"b', 'é', 'b', 'a\\nb', 'x y', "it's", 'c\x01d\x1f']
 
 
 # ----------------------------------------------------------------------------------------------- encoding for the driver
